@@ -86,7 +86,8 @@ PROPS = {
         targets=[
             enum("enum", ["props/C15_enum.cpp", "shims/bf_table.c"], qs=8, ts=16, cflags=["-DCXX_ALLOW_TYPE_PUNNING"]),
             enum("noswap", ["props/C15_enum.cpp", "shims/bf_table.c"], qs=8, ts=16, noswap=True),
-            enum("O0", ["props/C15_enum.cpp", "shims/bf_table.c"], qs=8, ts=16, cflags=["-O0"]),   # accessors compiled without optimisation: locals live in (poisoned) stack slots
+            enum("O0", ["props/C15_enum.cpp", "shims/bf_table.c"], qs=8, ts=16, cflags=["-O0"]),
+            enum("uchar", ["props/C15_enum.cpp", "shims/bf_table.c"], qs=8, ts=16, cflags=["-funsigned-char"]),   # the ABI of most embedded targets: plain char is unsigned   # accessors compiled without optimisation: locals live in (poisoned) stack slots
             enum("fast", ["props/C15_enum.cpp", "shims/bf_table.c"], qs=0, ts=16, lib="fast", cxxflags=["-DVP_FAST", "-O2"], cflags=["-O2"]),
         ],
     ),
